@@ -2,6 +2,7 @@ import TerwayModel.Driver.Common
 import TerwayModel.Driver.Net
 import TerwayModel.Driver.Token
 import TerwayModel.Driver.VSwitch
+import TerwayModel.Driver.Bandwidth
 /-
 `drv`: reads one operation per line (`<model>.<op> arg…`), prints one canonical line per input.
 Malformed or unknown lines print `bad-op` — never a default value.
@@ -19,6 +20,7 @@ def dispatch (st : St) (line : String) : St × String :=
   | head :: args =>
     match head.splitOn "." with
     | ["net", op] => (st, (Net.step op args).getD "bad-op")
+    | ["bw", op] => (st, (Bandwidth.step op args).getD "bad-op")
     | ["tok", op] =>
       match Token.step st.tok op args with
       | some (t, o) => ({ st with tok := t }, o)
